@@ -634,6 +634,14 @@ class DAGRunConcurrentManager(DAGRunManagerLike):
         try:
             self._add_case_result(node_id)
         except Exception as ex:
+            if dag.is_oneof:
+                # Inside a OneOf subgraph the error is contained like a node failure: the subgraph fails
+                # and the next one can be started.
+                self._node_storage.set_node_result(node_id, ex)
+                await self.__unlock_descendants(node_id)
+                await self.__unlock_itself(dag.dest)
+                return None
+
             # The switch task is the only place where the error can be seen, so the run method must be notified.
             await self.__raise_exc(ex)
 
